@@ -209,7 +209,14 @@ def __infer_set(
             vol,
         ])
 
-    if ir.is_binding and ir.is_binding != irast.BindingKind.Schema:
+    # References to WITH / FOR bindings are immutable: the bound
+    # expression is accounted for where it is bound (the statement's
+    # bindings / iterator).  A result alias (`select a := <expr>`) is
+    # bound nowhere else, so its expression counts here.
+    if ir.is_binding and ir.is_binding not in (
+        irast.BindingKind.Schema,
+        irast.BindingKind.Select,
+    ):
         vol = IMMUTABLE
 
     return vol
